@@ -24,6 +24,7 @@ import (
 	"sync/atomic"
 	"time"
 
+	"github.com/AdguardTeam/AdGuardDNS/internal/dnsmsg"
 	"github.com/AdguardTeam/AdGuardDNS/internal/dnsserver"
 	"github.com/AdguardTeam/AdGuardDNS/verifh/hlib"
 	"github.com/miekg/dns"
@@ -61,13 +62,20 @@ func (timeoutErr) Temporary() bool { return true }
 
 var _ net.Error = timeoutErr{}
 
-// sharedScript is the one scripted handler all servers consult.
-var sharedScript = &script{}
+// sharedAdv is the Disposer of all servers: the production cloner plus the
+// worst concurrent schedule.  sharedScript is the one scripted handler all
+// servers consult; like the cache middlewares it answers with clones taken from
+// that same cloner.
+var (
+	sharedAdv    = newAdvDisposer()
+	sharedScript = &script{adv: sharedAdv}
+)
 
 type script struct {
 	mu    sync.Mutex
 	o     outcome
 	calls atomic.Int64
+	adv   *advDisposer
 }
 
 func (s *script) set(o outcome) {
@@ -77,20 +85,211 @@ func (s *script) set(o outcome) {
 	s.calls.Store(0)
 }
 
-// answersFor builds the n records "the resolver pipeline produced".
+// answersFor builds the n records "the resolver pipeline produced".  The record
+// types rotate through everything the production cloner pools (A, AAAA, CNAME,
+// TXT, MX, PTR, SRV, HTTPS), starting at a position that depends on the name.
 func answersFor(req *dns.Msg, n int) (rrs []dns.RR) {
 	name := "."
 	if len(req.Question) > 0 {
 		name = req.Question[0].Name
 	}
 	for i := 0; i < n; i++ {
-		rrs = append(rrs, &dns.A{
-			Hdr: dns.RR_Header{Name: name, Rrtype: dns.TypeA, Class: dns.ClassINET, Ttl: 60},
-			A:   net.IPv4(192, 0, 2, byte(i+1)).To4(),
-		})
+		rrs = append(rrs, pooledRR(name, (len(name)+i)%8, byte(i+1), "pipeline.example."))
 	}
 
 	return rrs
+}
+
+// pooledRR returns a record of the k-th pooled type.
+func pooledRR(name string, k int, x byte, target string) dns.RR {
+	hdr := func(t uint16) dns.RR_Header {
+		return dns.RR_Header{Name: name, Rrtype: t, Class: dns.ClassINET, Ttl: 60}
+	}
+	switch k {
+	case 1:
+		return &dns.AAAA{Hdr: hdr(dns.TypeAAAA), AAAA: net.IP{0x20, 1, 0xd, 0xb8, 0, 0, 0, 0, 0, 0, 0, 0, 0, 0, 0, x}}
+	case 2:
+		return &dns.CNAME{Hdr: hdr(dns.TypeCNAME), Target: "c" + strconv.Itoa(int(x)) + "." + target}
+	case 3:
+		return &dns.TXT{Hdr: hdr(dns.TypeTXT), Txt: []string{"txt " + strconv.Itoa(int(x)), target}}
+	case 4:
+		return &dns.MX{Hdr: hdr(dns.TypeMX), Preference: uint16(x), Mx: "mx." + target}
+	case 5:
+		return &dns.PTR{Hdr: hdr(dns.TypePTR), Ptr: "p" + strconv.Itoa(int(x)) + "." + target}
+	case 6:
+		return &dns.SRV{Hdr: hdr(dns.TypeSRV), Priority: uint16(x), Weight: 2, Port: 853, Target: "srv." + target}
+	case 7:
+		return &dns.HTTPS{SVCB: dns.SVCB{Hdr: hdr(dns.TypeHTTPS), Priority: uint16(x), Target: "svc." + target, Value: []dns.SVCBKeyValue{
+			&dns.SVCBAlpn{Alpn: []string{"h2", "h3"}},
+			&dns.SVCBIPv4Hint{Hint: []net.IP{net.IPv4(192, 0, 2, x).To4(), net.IPv4(192, 0, 2, x+100).To4()}},
+		}}}
+	default:
+		return &dns.A{Hdr: hdr(dns.TypeA), A: net.IPv4(192, 0, 2, x).To4()}
+	}
+}
+
+// pipelineResp is the whole response "the resolver pipeline produced" for req:
+// SetReply, the rcode, n answers, an SOA in the authority section of a name
+// error, and - for every other EDNS request - an OPT record of its own with a
+// cookie and a client-subnet option.
+func pipelineResp(req *dns.Msg, rcode, n int) (resp *dns.Msg) {
+	resp = (&dns.Msg{}).SetReply(req)
+	resp.Rcode = rcode
+	resp.Answer = answersFor(req, n)
+	if rcode == dns.RcodeNameError {
+		resp.Ns = []dns.RR{&dns.SOA{Hdr: dns.RR_Header{Name: "example.", Rrtype: dns.TypeSOA, Class: dns.ClassINET, Ttl: 30},
+			Ns: "ns.pipeline.example.", Mbox: "m.pipeline.example.", Serial: uint32(req.Id), Refresh: 1, Retry: 2, Expire: 3, Minttl: 4}}
+	}
+	if req.IsEdns0() != nil && n%2 == 1 {
+		resp.Extra = []dns.RR{&dns.OPT{Hdr: dns.RR_Header{Name: ".", Rrtype: dns.TypeOPT, Class: 1232}, Option: []dns.EDNS0{
+			&dns.EDNS0_COOKIE{Code: dns.EDNS0COOKIE, Cookie: fmt.Sprintf("%016x", uint64(req.Id)+0x1000)},
+			&dns.EDNS0_SUBNET{Code: dns.EDNS0SUBNET, Family: 1, SourceNetmask: 24, SourceScope: 24, Address: net.IPv4(198, 51, byte(n), 0).To4()},
+		}}}
+	}
+
+	return resp
+}
+
+// pipelineOptions renders the options of m's OPT record that the pipeline
+// itself put there, i.e. everything but padding and keep-alive.
+func pipelineOptions(m *dns.Msg) string {
+	opt := m.IsEdns0()
+	if opt == nil {
+		return "<no OPT>"
+	}
+	var parts []string
+	for _, o := range opt.Option {
+		if c := o.Option(); c == dns.EDNS0PADDING || c == dns.EDNS0TCPKEEPALIVE {
+			continue
+		}
+		parts = append(parts, fmt.Sprintf("%d:%s", o.Option(), o.String()))
+	}
+
+	return strings.Join(parts, ";")
+}
+
+// ---------------------------------------------------------------------------
+// Adversarial disposer
+
+// advDisposer is what production configures as ConfigBase.Disposer - the
+// dnsmsg.Cloner that also produces the handlers' responses - together with the
+// worst schedule of the requests that are served concurrently with the one under
+// test: immediately after every Dispose(resp), two other requests clone their
+// own (different) responses out of the pools and keep using them.  If a response
+// is given to the Disposer while somebody still reads it, the reader now sees
+// another client's id, question and records; if it is given to the Disposer
+// twice, or written to after disposal, the concurrent request's response is
+// damaged, which settle detects.
+type advDisposer struct {
+	mu       sync.Mutex
+	cl       *dnsmsg.Cloner
+	decoys   []*dns.Msg
+	wants    []string
+	next     int
+	held     []heldClone
+	disposes int
+}
+
+type heldClone struct {
+	m   *dns.Msg
+	idx int
+}
+
+func newAdvDisposer() (d *advDisposer) {
+	d = &advDisposer{cl: dnsmsg.NewCloner(dnsmsg.EmptyClonerStat{})}
+	for i := 0; i < 5; i++ {
+		name := fmt.Sprintf("Concurrent-%d.other-client.example.", i)
+		req := &dns.Msg{}
+		req.SetQuestion(name, pick(rand.New(rand.NewPCG(uint64(i), 1)), []uint16{dns.TypeA, dns.TypeAAAA, dns.TypeHTTPS}))
+		req.Id = uint16(0xdead + i)
+		m := (&dns.Msg{}).SetReply(req)
+		m.RecursionAvailable = true
+		for k := 0; k < 8; k++ {
+			m.Answer = append(m.Answer, pooledRR(name, (k+i)%8, byte(200+i), "other-client.example."))
+		}
+		m.Answer = m.Answer[:3+i]
+		m.Ns = []dns.RR{&dns.SOA{Hdr: dns.RR_Header{Name: "other-client.example.", Rrtype: dns.TypeSOA, Class: dns.ClassINET, Ttl: 77},
+			Ns: "ns.other-client.example.", Mbox: "m.other-client.example.", Serial: uint32(7000 + i)}}
+		m.Extra = []dns.RR{&dns.OPT{Hdr: dns.RR_Header{Name: ".", Rrtype: dns.TypeOPT, Class: uint16(1400 + i)}, Option: []dns.EDNS0{
+			&dns.EDNS0_COOKIE{Code: dns.EDNS0COOKIE, Cookie: fmt.Sprintf("%016x", 0xfeed0000+i)},
+			&dns.EDNS0_EDE{InfoCode: uint16(15 + i), ExtraText: "other client"},
+			&dns.EDNS0_SUBNET{Code: dns.EDNS0SUBNET, Family: 1, SourceNetmask: 24, Address: net.IPv4(203, 0, 113, 0).To4()},
+		}}}
+		d.decoys = append(d.decoys, m)
+		d.wants = append(d.wants, m.String())
+	}
+
+	return d
+}
+
+// clone is the handler's (cache middleware's) use of the shared cloner.
+func (d *advDisposer) clone(m *dns.Msg) *dns.Msg {
+	d.mu.Lock()
+	defer d.mu.Unlock()
+
+	return d.cl.Clone(m)
+}
+
+// Dispose implements the dnsserver.Disposer interface.
+func (d *advDisposer) Dispose(resp *dns.Msg) {
+	d.mu.Lock()
+	defer d.mu.Unlock()
+	d.cl.Dispose(resp)
+	if resp == nil {
+		return
+	}
+	d.disposes++
+	for i := 0; i < 2; i++ {
+		k := d.next % len(d.decoys)
+		d.next++
+		d.held = append(d.held, heldClone{m: d.cl.Clone(d.decoys[k]), idx: k})
+	}
+}
+
+func (d *advDisposer) begin() {
+	d.mu.Lock()
+	d.disposes = 0
+	d.mu.Unlock()
+}
+
+func safeString(m *dns.Msg) (s string) {
+	defer func() {
+		if v := recover(); v != nil {
+			s = fmt.Sprintf("<unprintable: %v>", v)
+		}
+	}()
+
+	return m.String()
+}
+
+// settle ends the concurrent requests: their responses must still be what they
+// cloned.  It returns the number of disposals since begin and, if a concurrent
+// response was damaged, a description.
+func (d *advDisposer) settle() (disposes int, damaged string) {
+	d.mu.Lock()
+	defer d.mu.Unlock()
+	disposes = d.disposes
+	for _, h := range d.held {
+		if got := safeString(h.m); got != d.wants[h.idx] && damaged == "" {
+			damaged = fmt.Sprintf("the response of concurrent request id %d, cloned from the shared pools, was changed under it; it now reads %q",
+				d.decoys[h.idx].Id, strings.Join(strings.Fields(got), " "))
+		}
+	}
+	if damaged != "" {
+		// The pools are in an unknown state: start over with new ones.
+		d.cl = dnsmsg.NewCloner(dnsmsg.EmptyClonerStat{})
+	} else {
+		seen := map[*dns.Msg]bool{}
+		for _, h := range d.held {
+			if !seen[h.m] {
+				d.cl.Dispose(h.m)
+			}
+			seen[h.m] = true
+		}
+	}
+	d.held = d.held[:0]
+
+	return disposes, damaged
 }
 
 func (s *script) ServeDNS(ctx context.Context, rw dnsserver.ResponseWriter, req *dns.Msg) (err error) {
@@ -99,11 +298,14 @@ func (s *script) ServeDNS(ctx context.Context, rw dnsserver.ResponseWriter, req 
 	o := s.o
 	s.mu.Unlock()
 	mk := func() *dns.Msg {
-		resp := (&dns.Msg{}).SetReply(req)
-		resp.Rcode = o.rcode
-		resp.Answer = answersFor(req, o.n)
+		resp := pipelineResp(req, o.rcode, o.n)
+		if req.Id%4 == 3 {
+			// Built afresh, like the responses of the message constructor.
+			return resp
+		}
 
-		return resp
+		// Taken from the shared pools, like the responses of the caches.
+		return s.adv.clone(resp)
 	}
 	scripted := func() error {
 		if o.ne {
@@ -258,7 +460,23 @@ func (w *fakeDCW) RemoteAddr() net.Addr {
 
 	return rUDP
 }
-func (w *fakeDCW) WriteMsg(m *dns.Msg) error { w.msgs = append(w.msgs, m.Copy()); return nil }
+
+// WriteMsg does what the DNSCrypt library's writers do: the message is packed
+// (then encrypted and sent) before WriteMsg returns, so the client's view is
+// fixed here, and nothing of m is retained.
+func (w *fakeDCW) WriteMsg(m *dns.Msg) error {
+	b, err := m.Pack()
+	if err != nil {
+		return err
+	}
+	got := &dns.Msg{}
+	if err = got.Unpack(b); err != nil {
+		return err
+	}
+	w.msgs = append(w.msgs, got)
+
+	return nil
+}
 
 // ---------------------------------------------------------------------------
 // Servers
@@ -276,7 +494,7 @@ type env struct {
 func newEnv() (e *env) {
 	e = &env{h: sharedScript}
 	base := func(name string) dnsserver.ConfigBase {
-		return dnsserver.ConfigBase{Name: name, Addr: "127.0.0.1:0", Handler: e.h}
+		return dnsserver.ConfigBase{Name: name, Addr: "127.0.0.1:0", Handler: e.h, Disposer: e.h.adv}
 	}
 	cdns := func(name string) dnsserver.ConfigDNS {
 		return dnsserver.ConfigDNS{ConfigBase: base(name), MaxPipelineEnabled: true, MaxPipelineCount: 1}
@@ -327,6 +545,10 @@ type sees struct {
 	garbage int
 	panicV  any
 	hung    bool
+	// disposes counts the responses given to the Disposer for this request;
+	// damaged is non-empty if a concurrent request's response was changed.
+	disposes int
+	damaged  string
 }
 
 const (
@@ -414,12 +636,14 @@ func (e *env) run(t string, b []byte, req *dns.Msg, wok bool) (s sees) {
 		inner = again
 	}
 	inner.panicV = pv
+	inner.disposes, inner.damaged = e.h.adv.settle()
 
 	return inner
 }
 
 func (e *env) runInner(t string, b []byte, req *dns.Msg, wok bool) (s sees) {
 	ctx := context.Background()
+	e.h.adv.begin()
 	switch t {
 	case "udp":
 		c := &fakePacketConn{in: b, wok: wok}
@@ -460,6 +684,7 @@ func (e *env) runInner(t string, b []byte, req *dns.Msg, wok bool) (s sees) {
 		e.h.set(outcome{kind: "wrote"})
 		_ = e.doq.VerifC01ServeQUICStream(ps, &fakeQUICConn{})
 		e.h.set(saved)
+		e.h.adv.begin()
 		st := &fakeStream{in: bytes.NewReader(prefixed(b))}
 		qc := &fakeQUICConn{}
 		_ = e.doq.VerifC01ServeQUICStream(st, qc)
@@ -534,7 +759,7 @@ func canonSees(s sees, hid string) string {
 		parts = append(parts, canonResp(m))
 	}
 
-	return fmt.Sprintf("%d %s %d ", s.status, hid, len(s.msgs)) + strings.Join(parts, " ")
+	return fmt.Sprintf("%d %s %d ", s.status, hid, len(s.msgs)) + strings.Join(parts, " ") + fmt.Sprintf(" d%d", s.disposes)
 }
 
 func hdrID(b []byte) string {
@@ -837,6 +1062,10 @@ func oracle(r *hlib.Result, t string, b []byte, req *dns.Msg, o outcome, wok boo
 	if s.garbage > 0 {
 		r.Violate("garbled-response-"+t, t+": the server wrote bytes that do not decode as a DNS message / frame", ci)
 	}
+	if s.damaged != "" {
+		r.Violate("concurrent-response-damaged-"+t, t+": serving this request with the Disposer's pools shared (production set-up): "+s.damaged+
+			" - a response was disposed of twice or written to after its disposal", ci)
+	}
 	doqKA := t == "doq" && req != nil && hasKeepalive(req)
 	// 1. Never a response with another id or question; responses are responses.
 	for _, m := range s.msgs {
@@ -906,8 +1135,15 @@ func oracle(r *hlib.Result, t string, b []byte, req *dns.Msg, o outcome, wok boo
 			return ""
 		}
 		m := s.msgs[0]
-		if m.Rcode != o.rcode || rrStrings(m.Answer) != rrStrings(answersFor(req, o.n)) || m.Truncated {
+		want := pipelineResp(req, o.rcode, o.n)
+		if m.Rcode != o.rcode || rrStrings(m.Answer) != rrStrings(want.Answer) || m.Truncated {
 			r.Violate("answer-differs-"+t, fmt.Sprintf("%s: delivered rcode/records differ from what the pipeline produced: rcode %d records %q", t, m.Rcode, rrStrings(m.Answer)), ci)
+		}
+		if rrStrings(m.Ns) != rrStrings(want.Ns) {
+			r.Violate("authority-differs-"+t, fmt.Sprintf("%s: delivered authority section %q, the pipeline produced %q", t, rrStrings(m.Ns), rrStrings(want.Ns)), ci)
+		}
+		if want.IsEdns0() != nil && pipelineOptions(m) != pipelineOptions(want) {
+			r.Violate("options-differ-"+t, fmt.Sprintf("%s: delivered EDNS options (padding and keep-alive aside) %q, the pipeline produced %q", t, pipelineOptions(m), pipelineOptions(want)), ci)
 		}
 		if m.Opcode != req.Opcode {
 			r.Violate("opcode-differs-"+t, t+": response opcode differs from the request's", ci)
@@ -944,7 +1180,7 @@ func oracle(r *hlib.Result, t string, b []byte, req *dns.Msg, o outcome, wok boo
 		return ""
 	}
 
-	return fmt.Sprintf("%d %d %s %s", m.Rcode, m.Opcode, m.Question[0].String(), rrStrings(m.Answer))
+	return fmt.Sprintf("%d %d %s %s / %s", m.Rcode, m.Opcode, m.Question[0].String(), rrStrings(m.Answer), rrStrings(m.Ns))
 }
 
 // ---------------------------------------------------------------------------
@@ -1176,6 +1412,28 @@ func acceptCampaign(r *hlib.Result, m *hlib.Model) {
 	r.Notes = append(r.Notes, "acceptMsg decision table enumerated exhaustively for qr x opcode 0..15 x section counts 0..3")
 }
 
+// jsonRRs renders the records of a JSON answer; jsonWant renders what they must
+// be for rrs: owner, type, class, TTL and the presentation format of the data.
+func jsonRRs(as []dnsserver.JSONAnswer) string {
+	parts := make([]string, 0, len(as))
+	for _, a := range as {
+		parts = append(parts, fmt.Sprintf("%s %d %d %d %s", a.Name, a.Type, a.Class, a.TTL, a.Data))
+	}
+
+	return strings.Join(parts, ";")
+}
+
+func jsonWant(rrs []dns.RR) string {
+	parts := make([]string, 0, len(rrs))
+	for _, rr := range rrs {
+		h := rr.Header()
+		data := strings.TrimLeft(strings.TrimPrefix(rr.String(), h.String()), " ")
+		parts = append(parts, fmt.Sprintf("%s %d %d %d %s", h.Name, h.Rrtype, h.Class, h.Ttl, data))
+	}
+
+	return strings.Join(parts, ";")
+}
+
 // jsonCampaign drives the JSON API.
 func jsonCampaign(o *hlib.Opts, r *hlib.Result, m *hlib.Model, e *env) {
 	rng := o.Rand("json")
@@ -1219,12 +1477,18 @@ func jsonCampaign(o *hlib.Opts, r *hlib.Result, m *hlib.Model, e *env) {
 		req.RemoteAddr = "192.0.2.99:40000"
 		w := httptest.NewRecorder()
 		e.h.set(oc)
+		e.h.adv.begin()
 		hung, pv := guard(60*time.Second, func() { e.hh.ServeHTTP(w, req) })
 		if hung {
 			pv = "no completion within 10 s"
 			e.reset()
 		}
+		nDisp, damaged := e.h.adv.settle()
 		ci := map[string]any{"transport": "dohjson", "url": req.URL.String(), "handler_outcome": oc.String(), "status": w.Code}
+		if damaged != "" {
+			r.Violate("concurrent-response-damaged-dohjson", "JSON API: serving this request with the Disposer's pools shared (production set-up): "+damaged+
+				" - a response was disposed of twice or written to after its disposal", ci)
+		}
 		if pv != nil {
 			r.Violate("panic-dohjson", fmt.Sprintf("panic escaped: %v", pv), ci)
 
@@ -1284,6 +1548,7 @@ func jsonCampaign(o *hlib.Opts, r *hlib.Result, m *hlib.Model, e *env) {
 		} else {
 			real = fmt.Sprintf("%d 0 ", w.Code)
 		}
+		real += fmt.Sprintf(" d%d", nDisp)
 		ps = append(ps, jp{line: line, real: real, ci: ci})
 		// Oracle.
 		calls := e.h.calls.Load()
@@ -1311,6 +1576,8 @@ func jsonCampaign(o *hlib.Opts, r *hlib.Result, m *hlib.Model, e *env) {
 				jm.Question[0].Name != fq || jm.Question[0].Type != wantT {
 				r.Violate("json-answer-differs", fmt.Sprintf("JSON API: HTTP %d status %d answers %d question %v; want rcode %d, %d answers, question %s/%d",
 					w.Code, jm.Status, len(jm.Answer), jm.Question, wantRc, wantN, fq, wantT), ci)
+			} else if got, want := jsonRRs(jm.Answer), jsonWant(answersFor(&dns.Msg{Question: []dns.Question{{Name: fq}}}, wantN)); got != want {
+				r.Violate("json-answer-differs", fmt.Sprintf("JSON API: answer records %q, the pipeline produced %q", got, want), ci)
 			}
 		}
 		r.Case(line, bad || oc.kind != "wrote")
@@ -1451,6 +1718,7 @@ func pipelineCampaign(o *hlib.Opts, r *hlib.Result, e *env) {
 		c := &fakeConn{in: bytes.NewReader(in), wok: true}
 		e.h.set(outcome{kind: "wrote", rcode: 0, n: 1})
 		ctx := context.Background()
+		e.h.adv.begin()
 		hung, pv := guard(60*time.Second, func() {
 			if t == "tcp" {
 				e.plain.VerifC01ServeTCPConn(ctx, c)
@@ -1458,17 +1726,26 @@ func pipelineCampaign(o *hlib.Opts, r *hlib.Result, e *env) {
 				e.dot.VerifC01ServeTCPConn(ctx, c)
 			}
 		})
+		var s sees
+		s.disposes, s.damaged = e.h.adv.settle()
 		if hung || pv != nil {
 			r.Violate("hang-"+t, fmt.Sprintf("pipelined %s: connection routine hung=%v panic=%v", t, hung, pv), map[string]any{"transport": t, "stream_hex": hex.EncodeToString(in)})
 			e.reset()
 
 			continue
 		}
-		var s sees
 		c.mu.Lock()
 		splitPrefixed(c.out.Bytes(), &s)
 		c.mu.Unlock()
 		ci := map[string]any{"transport": t, "stream_hex": hex.EncodeToString(in), "observed": canonSees(s, "-")}
+		if s.damaged != "" {
+			r.Violate("concurrent-response-damaged-"+t, "pipelined "+t+" with the Disposer's pools shared (production set-up): "+s.damaged, ci)
+		}
+		if s.disposes != len(s.msgs) {
+			// Not the property (a missed disposal is only a lost allocation), but the
+			// lifetime model says one disposal per response written.
+			r.Disagree("dispose-count-"+t, fmt.Sprintf("pipelined %s: %d responses sent but %d given to the Disposer", t, len(s.msgs), s.disposes), ci)
+		}
 		seen := map[uint16]int{}
 		for _, m := range s.msgs {
 			seen[m.Id]++
@@ -1480,6 +1757,8 @@ func pipelineCampaign(o *hlib.Opts, r *hlib.Result, e *env) {
 				r.Violate("foreign-question-"+t, fmt.Sprintf("pipelined %s: id %d answered with question %v, asked %v", t, m.Id, m.Question, w.q), ci)
 			case m.Rcode != w.rcode:
 				r.Violate("answer-differs-"+t, fmt.Sprintf("pipelined %s: id %d rcode %d, want %d", t, m.Id, m.Rcode, w.rcode), ci)
+			case w.rcode == 0 && rrStrings(m.Answer) != rrStrings(answersFor(&dns.Msg{Question: []dns.Question{w.q}}, 1)):
+				r.Violate("answer-differs-"+t, fmt.Sprintf("pipelined %s: id %d carries records %q, not the pipeline's", t, m.Id, rrStrings(m.Answer)), ci)
 			}
 		}
 		for id := range wants {
@@ -1521,6 +1800,9 @@ func truncationCampaign(o *hlib.Opts, r *hlib.Result, e *env) {
 			e.h.set(oc)
 			s := e.run(t, b, req, true)
 			ci := caseInfo{Transport: t, WireHex: hex.EncodeToString(b), Outcome: oc.String(), WriteOK: true, Observed: canonSees(s, "-")}
+			if s.damaged != "" {
+				r.Violate("concurrent-response-damaged-"+t, t+": large answer with the Disposer's pools shared (production set-up): "+s.damaged, ci)
+			}
 			if s.hung || s.panicV != nil || len(s.msgs) != 1 {
 				r.Violate("answer-count-"+t, fmt.Sprintf("%s: large answer: %d message(s), panic %v, hung %v", t, len(s.msgs), s.panicV, s.hung), ci)
 
@@ -1552,9 +1834,9 @@ func truncationCampaign(o *hlib.Opts, r *hlib.Result, e *env) {
 // liveCampaign: real UDP and TCP listeners must survive the malformed stream.
 func liveCampaign(o *hlib.Opts, r *hlib.Result) {
 	rng := o.Rand("live")
-	h := &script{}
+	h := &script{adv: newAdvDisposer()}
 	h.set(outcome{kind: "wrote", n: 1})
-	srv := dnsserver.NewServerDNS(dnsserver.ConfigDNS{ConfigBase: dnsserver.ConfigBase{Name: "live", Addr: "127.0.0.1:0", Handler: h}})
+	srv := dnsserver.NewServerDNS(dnsserver.ConfigDNS{ConfigBase: dnsserver.ConfigBase{Name: "live", Addr: "127.0.0.1:0", Handler: h, Disposer: h.adv}})
 	ctx := context.Background()
 	if err := srv.Start(ctx); err != nil {
 		r.Notes = append(r.Notes, "live listeners could not be started in this sandbox: "+err.Error())
@@ -1623,6 +1905,9 @@ func liveCampaign(o *hlib.Opts, r *hlib.Result) {
 		}
 		r.Violate("listener-down-"+network, network+" listener no longer answers a valid query after the malformed stream", map[string]any{"sent": n})
 	}
+	if _, damaged := h.adv.settle(); damaged != "" {
+		r.Violate("concurrent-response-damaged-live", "live UDP/TCP listeners with the Disposer's pools shared (production set-up): "+damaged, map[string]any{"sent": n})
+	}
 	check("udp", uaddr, func(b []byte) []byte { return b }, func(b []byte) []byte { return b })
 	check("tcp", taddr, prefixed, func(b []byte) []byte {
 		if len(b) < 2 {
@@ -1642,6 +1927,10 @@ func main() {
 		"real UDP, TCP, DoT, DoH GET/POST, DoQ and DNSCrypt accept paths with fake sockets; what the client sees is compared " +
 		"with the Lean model per transport and checked by an independent oracle (one response, same id/question, pipeline's " +
 		"rcode/records, documented reject treatment, handler never consulted on rejects, identical core across transports); " +
+		"all servers run in the production set-up of the response pools: the handler answers with clones from the dnsmsg.Cloner " +
+		"that is also the servers' Disposer, and after every Dispose two concurrent requests clone their own responses out of the " +
+		"pools (worst schedule), so a response recycled before its last use reaches the client with a foreign id/question/records " +
+		"and a response recycled twice or written to after disposal damages the concurrent responses, which are checked; " +
 		"a case is non-trivial unless it is a well-formed accepted query answered normally; distinct = distinct (wire, outcome)"
 	m := hlib.StartModel(o.Model, "C01")
 	defer m.Close()
